@@ -98,7 +98,8 @@ def run(ctx):
                 continue
             bad_model |= {(off + code // 1000, code % 1000) for code in res["model"]}
         ctx.tie(okm and not bad_model)
-    for (i, j) in sorted(set(bad_ref) | bad_model)[:10]:
+    # smallest objects first: the first entries of the replay file are the minimal failing inputs seen
+    for (i, j) in sorted(set(bad_ref) | bad_model, key=lambda ij: (len(cases[ij[0]]["sizes"]), cases[ij[0]]["len"], ij))[:10]:
         c, r = cases[i], cases[i]["results"][j]
         ctx.violation({"seed": ctx.seed, "tier": ctx.tier,
                        "object": {k: c[k] for k in ("kind", "ver", "link", "len", "limit", "sizes", "k", "m", "missing")},
